@@ -154,14 +154,19 @@ def c14(tier, seed):
                         out.append(dict(id="c14-%d" % k, deploy=dep(coll, vamms=[{}, {}]), ops=ops))
                         k += 1
     # emergency shutdown from every subset of already-closed vAMMs (3 registered vAMMs)
+    # ... at once, and long after the funding time has passed without a settlement, with positions open
     for coll in ("cw20",):
         for mask in range(8):
             pre = [tx("vamm%d" % (i + 1), "set_open", "owner", dict(open=False)) for i in range(3) if mask >> i & 1]
             for by in ("owner", "stranger"):
-                ops = [block(15)] + pre + [query("ifund", "get_all_vamm", {}), tx("ifund", "shutdown_vamms", by, {}),
-                                           query("ifund", "get_all_vamm_status", {})]
-                out.append(dict(id="c14-%d" % k, deploy=dep(coll, vamms=[{}, {}, {}]), ops=ops))
-                k += 1
+                for wait in (15, 7300, 90000):
+                    if wait != 15 and by != "owner":
+                        continue
+                    ops = [block(15), opn("tr1", "buy", 500, 500, v="vamm2"), block(wait)] + pre + [
+                           query("ifund", "get_all_vamm", {}), tx("ifund", "shutdown_vamms", by, {}),
+                           query("ifund", "get_all_vamm_status", {})]
+                    out.append(dict(id="c14-%d" % k, deploy=dep(coll, vamms=[{}, {}, {}]), ops=ops))
+                    k += 1
     # registry: duplicates, capacity, removal order, membership queries
     rng = random.Random(seed)
     for j in range(40 if tier == "quick" else 300):
@@ -348,6 +353,15 @@ def c16(tier, seed):
                 ops = underwater_prefix(native) + ([block(3600)] if "PF" in sq else []) + [acts[a] for a in sq]
                 out.append(dict(id="c16-%d" % k, deploy=dep(coll, engine=dict(plr=plr)), ops=ops))
                 k += 1
+        # the same orderings with the acting traders (and the liquidator) on the engine's whitelist: the whitelist
+        # lifts the caps, not the one-action rule
+        wl = [tx("engine", "add_whitelist", "owner", dict(address=a)) for a in ("tr2", "tr3", "liq")]
+        for sq in sorted(seqs)[::3]:
+            if "Lq" not in sq:
+                continue
+            ops = wl + underwater_prefix(native) + ([block(3600)] if "PF" in sq else []) + [acts[a] for a in sq]
+            out.append(dict(id="c16-%d" % k, deploy=dep(coll, engine=dict(plr=25)), ops=ops))
+            k += 1
         # the liquidated trader itself, and traders whose position was closed earlier in the block:
         # (partial) liquidation then close / open by the liquidated trader; close, liquidation, re-open
         for plr in (0, 25, 50):
@@ -1165,26 +1179,29 @@ def c06t(tier, seed):
 def closelim(tier, seed):
     """ClosePosition carrying a slippage limit the trade satisfies (and one it does not), on the whole-close and on
     the partial-close (price band) path: the position is built over several blocks so that closing it whole
-    would cross the band"""
+    would cross the band; pools priced at 10 and below 1 (sizes larger than notionals), non-divisible amounts"""
     out = []
     k = 0
     for coll in ("cw20", "native"):
         native = coll == "native"
-        for fl in (0, 5):
-            for plr in (0, 25, 100):
-                for side in ("buy", "sell"):
-                    ok_lim = 100 if side == "buy" else 10 ** 7
-                    bad_lim = 10 ** 7 if side == "buy" else 1
-                    for (m, nb) in ((2000, 3), (600, 1)):
-                        for lim in (ok_lim, bad_lim, 0):
-                            ops = []
-                            for _ in range(nb):
-                                ops += [block(15), opn("tr1", side, m, 100, funds=m if native else 0)]
-                            ops += [block(15), opn("tr2", side, 600, 100, funds=600 if native else 0), block(15),
-                                    close("tr1", limit=lim), query("engine", "position", dict(vamm="vamm1", trader="tr1")),
-                                    block(15), close("tr1", limit=lim), block(15), close("tr1", limit=ok_lim), close("tr2", limit=ok_lim)]
-                            out.append(dict(id="closelim-%d" % k, deploy=dep(coll, engine=dict(plr=plr), vamms=[dict(fluct=fl)]), ops=ops))
-                            k += 1
+        for (px, py) in ((100000, 10000), (20000, 50000)):
+            for fl in (0, 5):
+                for plr in (0, 25, 100):
+                    for side in ("buy", "sell"):
+                        ok_lim = 100 if side == "buy" else 10 ** 7
+                        bad_lim = 10 ** 7 if side == "buy" else 1
+                        for (m, nb) in ((px // 50 + 7, 3), (px // 160 + 1, 1)):
+                            for lim in (ok_lim, bad_lim, 0):
+                                if (px, py) != (100000, 10000) and (lim == bad_lim or native):
+                                    continue
+                                ops = []
+                                for _ in range(nb):
+                                    ops += [block(15), opn("tr1", side, m, 100, funds=m if native else 0)]
+                                ops += [block(15), opn("tr2", side, px // 160, 100, funds=px // 160 if native else 0), block(15),
+                                        close("tr1", limit=lim), query("engine", "position", dict(vamm="vamm1", trader="tr1")),
+                                        block(15), close("tr1", limit=lim), block(15), close("tr1", limit=ok_lim), close("tr2", limit=ok_lim)]
+                                out.append(dict(id="closelim-%d" % k, deploy=dep(coll, oracle=px * 100 // py, engine=dict(plr=plr), vamms=[dict(x=px, y=py, fluct=fl)]), ops=ops))
+                                k += 1
     return out
 
 FAMILIES = ["c02lp", "c04", "c04r", "c04p", "c05", "c06", "c06f", "c07", "c08", "c10", "c16", "c17", "c03",
